@@ -24,6 +24,9 @@ var childSeq int
 var childMu sync.Mutex
 var childSpawns, childDeaths int
 
+// text of a transaction the child's watchdog found blocked: prefix + the lunar/ function it is blocked in
+const stuckPrefix = "stuck in "
+
 // per-step time limit (seconds): a child that makes no progress for this long is killed
 const stepTimeout = 45 * time.Second
 
@@ -158,7 +161,11 @@ func runBatch(jobs []Job, wi int) map[int]*JobResult {
 			case l.What == "validated":
 				r.EngineLoad = kind
 				r.CrashText = stderr
-			case l.What == "txn-start":
+			case l.What == "txn-start" || l.What == "txn-stuck":
+				if l.What == "txn-stuck" { // the child's own watchdog: the transaction did not return
+					kind = "timeout"
+					stderr = stuckPrefix + l.Text
+				}
 				r.Txns[l.Txn].Outcome = kind
 				r.Txns[l.Txn].Text = stderr
 				r.CrashText = stderr
